@@ -138,3 +138,6 @@ def check(P, R, tier):
     fold(R, P, "c04", ("C04.S2",), "C19.G7", 20)
     # G2 "holding at least quorum stake": the threshold function itself and its >= users (C17)
     fold(R, P, "c17", ("C17.O1", "C17.O2", "C17.O3", "C17.O5", "C17.O6"), "C19.G2", 10)
+    # G8 "exactly when ... have sent it": votes and timeouts of the current and of future rounds stay in their makers until
+    # the quorum is reached - the aggregator is cleaned of rounds strictly BELOW the round just entered, nothing else (C09.L5)
+    fold(R, P, "c09", ("C09.L5",), "C19.G8", 4)
